@@ -131,6 +131,7 @@ class RuntimeEngine:
                         type(arg) is type(print)
                         or type(arg) is type(snake)
                         or type(arg) is type(self.set_coverage)
+                        or isinstance(arg, type)
                     ):
                         try:
                             args_for_filter.append(arg.__name__)
